@@ -204,11 +204,9 @@ func (fi *File) Mode() (os.FileMode, error) {
 	fi.nodeLock.RLock()
 	defer fi.nodeLock.RUnlock()
 
-	nd, err := fi.GetNode()
-	if err != nil {
-		return 0, err
-	}
-	fsn, err := ft.ExtractFSNode(nd)
+	// Read fi.node directly: calling GetNode here would read-lock nodeLock a
+	// second time, which deadlocks when a writer queues in between.
+	fsn, err := ft.ExtractFSNode(fi.node)
 	if err != nil {
 		return 0, err
 	}
@@ -245,11 +243,8 @@ func (fi *File) ModTime() (time.Time, error) {
 	fi.nodeLock.RLock()
 	defer fi.nodeLock.RUnlock()
 
-	nd, err := fi.GetNode()
-	if err != nil {
-		return time.Time{}, err
-	}
-	fsn, err := ft.ExtractFSNode(nd)
+	// See Mode: do not re-enter nodeLock through GetNode.
+	fsn, err := ft.ExtractFSNode(fi.node)
 	if err != nil {
 		return time.Time{}, err
 	}
